@@ -276,15 +276,34 @@ func (g *gen) typeSpec(f, kind string, grouped bool) {
 	}
 	if wantDecoy {
 		d := g.decoy(g.o.TagKeys[g.r.Intn(len(g.o.TagKeys))])
-		if grouped {
+		multi := g.r.Intn(2) == 0
+		switch {
+		case grouped && multi:
+			// the tag comment trails the CLOSING line of a multi-line spec
+			g.n++
+			prev := fmt.Sprintf("PrevM%d", g.n)
+			g.w(f, "\t%s struct {\n\t\tA int\n\t} // %s", prev, d)
+			g.p.Types = append(g.p.Types, &TypeDecl{Name: prev, Kind: "struct", DeclTags: map[string][]string{}, File: f, Grouped: true})
+		case grouped:
 			g.n++
 			prev := fmt.Sprintf("Prev%d", g.n)
 			g.w(f, "\t%s int // %s", prev, d)
 			g.p.Types = append(g.p.Types, &TypeDecl{Name: prev, Kind: "scalar", DeclTags: map[string][]string{}, File: f, Grouped: true})
-		} else {
+		case multi && g.r.Intn(2) == 0:
+			g.n++
+			prev := fmt.Sprintf("PrevM%d", g.n)
+			g.w(f, "type %s struct {\n\tA int\n} // %s", prev, d)
+			g.p.Types = append(g.p.Types, &TypeDecl{Name: prev, Kind: "struct", DeclTags: map[string][]string{}, File: f})
+		case multi:
+			g.w(f, "var prevm%d = []int{\n\t1,\n\t2,\n} // %s", g.n, d)
+		default:
 			g.w(f, "var prev%d int // %s", g.n, d)
 		}
-		t.Decoys = append(t.Decoys, "prev-trailing:"+d)
+		if multi {
+			t.Decoys = append(t.Decoys, "prev-trailing-multiline:"+d)
+		} else {
+			t.Decoys = append(t.Decoys, "prev-trailing:"+d)
+		}
 	} else {
 		if !grouped && len(lines) > 0 && g.r.Intn(4) == 0 {
 			// the same tags inside a multi-line block comment (unindented, ends on the line above the declaration)
